@@ -299,7 +299,10 @@ CLAIMED = {
         "with no file open is the no-file error with the state unchanged; ending extra data never begun is an error; "
         "once closed, write/start/end-extra/finish return the closed error with the state unchanged; an unsupported "
         "method or out-of-range level is an error that closes the writer; accepted extra data fits 16 bits and its first "
-        "record is complete, non-ZIP64, non-reserved.  Correspondence: ALL call sequences to depth 2 plus 9000 sampled of "
+        "record is complete, non-ZIP64, non-reserved.  Entry names (C12_created_names_partial): after any program on any sink "
+        "plan the writer's records are the old ones followed in call order by the name of every creating call that returned "
+        "Ok (possibly also of one that failed after writing its header) and nothing else: no call removes, reorders or "
+        "renames an entry, a successful creation is never lost.  Correspondence: ALL call sequences to depth 2 plus 9000 sampled of "
         "depth 3 (thorough: ALL to depth 4) over a 33-letter alphabet (every call, ZipCrypto option on every entry kind) "
         "plus random sequences up to depth 200: every call's Ok/Err(kind)/Panic and the final sink bytes equal the model's "
         "do_call; oracle: no panic, misuse is an error, and when finish succeeds an independent strict validator accepts "
